@@ -236,11 +236,12 @@ Mutate(e) ==
              ELSE (IF EdgesOk(o, g2) THEN {} ELSE {F(e, "C03", "kids/kid differ from the last binds")})
                   \cup (IF DataOk2(o, g2) THEN {} ELSE {F(e, "C03", "data differs from the last put")})
                   \cup (IF e.op = "data" /\ e.ret # DataRet(g, e.v) THEN {F(e, "C03", "data() returned something else")} ELSE {})
-      \* ---- C04
-      c04 == IF ~judge \/ e.op # "add" THEN {}
-             ELSE IF e.v \in g.present
+      \* ---- C04 (stated on what keys() showed before the call, so it needs no agreement with the reference model)
+      wasPresent == IF lastobs[h].h = h THEN e.v \in ToSet(lastobs[h].alive) ELSE e.v \in g.present
+      c04 == IF e.op # "add" \/ e.panic \/ Broken(o) THEN {}
+             ELSE IF wasPresent
                   THEN (IF e.same THEN {} ELSE {F(e, "C04", "add() on a present vertex changed the graph")})
-                  ELSE (IF ObsKids(o, e.v) = <<>> /\ ObsDat(o, e.v) = NoVal /\ e.v \notin ToSet(o.unread)
+                  ELSE (IF e.v \in ToSet(o.alive) /\ ObsKids(o, e.v) = <<>> /\ ObsDat(o, e.v) = NoVal /\ e.v \notin ToSet(o.unread)
                         THEN {} ELSE {F(e, "C04", "add() on an absent id did not create a blank vertex")})
       \* ---- C05
       c05 == IF div \/ e.op # "next_id" \/ e.panic THEN {}
